@@ -1,6 +1,7 @@
 package main
 
 import (
+	"os/exec"
 	"bufio"
 	"encoding/json"
 	"fmt"
@@ -279,6 +280,7 @@ func runCheck(prop, tier, repo, verif, only string, updateBaseline bool) int {
 		obls = append(obls, &Obligation{Name: "contract.unresolved:" + fc.Key, Kind: "contract", Func: fc.Key, Properties: []string{prop}, Status: "unsupported", Raw: "contract target does not resolve: " + u, Unsupported: "unresolved", Desc: "the function, closure or loop this contract is written for no longer exists"})
 	}
 
+	evalFacts(w, obls, outDir)
 	var todo []*Obligation
 	for _, o := range obls {
 		if o.Status == "" {
@@ -382,7 +384,7 @@ func runCheck(prop, tier, repo, verif, only string, updateBaseline bool) int {
 	// labelled baseline obligations that vanished
 	if only == "" {
 		for _, n := range base.Discharged {
-			if !seen[n] && (strings.Contains(n, "#ensures:") || strings.Contains(n, "#pkginv") || strings.Contains(n, "#const:") || strings.Contains(n, "#lemma:")) {
+			if !seen[n] && (strings.Contains(n, "#ensures:") || strings.Contains(n, "#pkginv") || strings.Contains(n, "#fact:") || strings.Contains(n, "#immutable:") || strings.Contains(n, "#const:") || strings.Contains(n, "#lemma:")) {
 				o := &Obligation{Name: n, Kind: "missing", Status: "unknown", Raw: "obligation present in the baseline is no longer generated (contract or function removed)"}
 				if _, ok := knownBy[n]; ok {
 					continue
@@ -583,4 +585,95 @@ func closedObligation(w *World, cf *ContractFile, c *Clause) *Obligation {
 		}
 	}()
 	return o
+}
+
+
+// evalFacts decides the closed `fact` obligations by running the real code: for every package with such
+// obligations a test is injected through a build overlay (nothing is written to /repo) that calls the
+// generated spec functions, and `go test -tags verif` is run on /repo's working tree.
+func evalFacts(w *World, obls []*Obligation, outDir string) {
+	byPkg := map[string][]*Obligation{}
+	for _, o := range obls {
+		if o.EvalPkg != "" && o.Status == "" {
+			byPkg[o.EvalPkg] = append(byPkg[o.EvalPkg], o)
+		}
+	}
+	if len(byPkg) == 0 {
+		return
+	}
+	ovDir := filepath.Join(outDir, "overlay")
+	os.RemoveAll(ovDir)
+	os.MkdirAll(ovDir, 0o755)
+	replace := map[string]string{}
+	n := 0
+	add := func(path string, content []byte) {
+		n++
+		f := filepath.Join(ovDir, fmt.Sprintf("f%d_%s", n, filepath.Base(path)))
+		os.WriteFile(f, content, 0o644)
+		replace[path] = f
+	}
+	for p, b := range w.GenFiles {
+		add(p, b)
+	}
+	var pkgs []string
+	for p := range byPkg {
+		pkgs = append(pkgs, p)
+	}
+	sort.Strings(pkgs)
+	for _, pp := range pkgs {
+		var dir, name string
+		for _, p := range w.Pkgs {
+			if p.PkgPath == pp && len(p.GoFiles) > 0 {
+				dir, name = filepath.Dir(p.GoFiles[0]), p.Name
+			}
+		}
+		if dir == "" {
+			for _, o := range byPkg[pp] {
+				o.Status, o.Raw = "unknown", "package directory not found"
+			}
+			continue
+		}
+		var b strings.Builder
+		fmt.Fprintf(&b, "//go:build verif\n\npackage %s\n\nimport \"testing\"\n\nfunc TestZZVerifFacts(t *testing.T) {\n", name)
+		for _, o := range byPkg[pp] {
+			fmt.Fprintf(&b, "\tif %s() {\n\t\tt.Logf(\"FACT-OK %s\")\n\t} else {\n\t\tt.Errorf(\"FACT-FAILED %s\")\n\t}\n", o.EvalFn, o.EvalFn, o.EvalFn)
+		}
+		b.WriteString("}\n")
+		add(filepath.Join(dir, "zz_verif_facts_test.go"), []byte(b.String()))
+	}
+	ovJSON, _ := json.Marshal(map[string]interface{}{"Replace": replace})
+	ovFile := filepath.Join(ovDir, "overlay.json")
+	os.WriteFile(ovFile, ovJSON, 0o644)
+	for _, pp := range pkgs {
+		t0 := time.Now()
+		cmd := exec.Command("go", "test", "-tags", "verif", "-overlay", ovFile, "-vet=off", "-count=1", "-timeout", "120s", "-run", "^TestZZVerifFacts$", "-v", pp)
+		cmd.Dir = w.RepoDir
+		cmd.Env = append(os.Environ(), "GOFLAGS=-mod=mod", "GOPROXY=off", "GOSUMDB=off", "GOTOOLCHAIN=local")
+		out, _ := cmd.CombinedOutput()
+		ms := time.Since(t0).Milliseconds()
+		for _, o := range byPkg[pp] {
+			o.TimeMs = ms / int64(len(byPkg[pp]))
+			o.Solver = "go-eval(real code, no inputs)"
+			switch {
+			case strings.Contains(string(out), "FACT-OK "+o.EvalFn+"\n"):
+				o.Status = "discharged"
+			case strings.Contains(string(out), "FACT-FAILED "+o.EvalFn+"\n"):
+				o.Status = "failed"
+				o.Raw = "the expression evaluates to false on the real code"
+				o.Model = map[string]string{}
+			default:
+				o.Status = "unknown"
+				o.Raw = "go test did not run the fact: " + lastLines(string(out), 8)
+			}
+		}
+	}
+	os.RemoveAll(ovDir)
+}
+
+func lastLines(s string, n int) string {
+	ls := strings.Split(strings.TrimSpace(s), "\n")
+	if len(ls) > n {
+		ls = ls[len(ls)-n:]
+	}
+	return strings.Join(ls, " | ")
 }
